@@ -103,6 +103,7 @@ func main() {
 	}
 
 	runLifecycle(r)
+	runHandleRead(r) // hread.go: Handle.Read / ReadMsg leftover handling (Corr/CorrC17Read.v)
 
 	// race detector reports (GORACE log_path=race in the run prefix; exitcode=0 so that the
 	// cases above still reach the checker)
